@@ -337,7 +337,17 @@ func multiSplit(value string, seps ...string) []string {
 	return curArray
 }
 
+// maxShorthandComponents bounds the number of space separated components of
+// a shorthand value. Checking a value is cubic in that number and recurses
+// once per component: a few kilobytes of one repeated token took minutes and
+// some megabytes of spaces exhausted the stack. No real shorthand value comes
+// anywhere near the limit.
+const maxShorthandComponents = 256
+
 func recursiveCheck(value []string, funcs []func(string) bool) bool {
+	if len(value) > maxShorthandComponents {
+		return false
+	}
 	// failed remembers the suffixes (by their length) that cannot be
 	// segmented, so that each of them is only explored once
 	return recursiveCheckMemo(value, funcs, make(map[int]bool))
